@@ -783,11 +783,6 @@ else:
             result = {}
 
             for key, value in self.__dict__.items():
-                # Only interpreter-style dunder names are internal; an unknown
-                # wire member such as "__x" is data and is kept, as under Pydantic
-                if key.startswith("__") and key.endswith("__"):
-                    continue
-
                 if include and key not in include:
                     continue
                 if exclude and self._should_exclude(key, exclude):
